@@ -2,7 +2,7 @@
 namespace BdModel.Canon.Sched
 
 /-- hash of the normalised skeleton of Schedule (internal/dag/scheduler/scheduler.go) -/
-def h_sched_Schedule : Nat := 0x3c17b27c9f243e71
+def h_sched_Schedule : Nat := 0xa18a916f404f7d1d
 
 /-- hash of the normalised skeleton of isReady (internal/dag/scheduler/scheduler.go) -/
 def h_sched_isReady : Nat := 0xfa451317c79e8e2a
@@ -11,7 +11,7 @@ def h_sched_isReady : Nat := 0xfa451317c79e8e2a
 def h_sched_Status : Nat := 0x87406c78a0943964
 
 /-- hash of the normalised skeleton of Signal (internal/dag/scheduler/scheduler.go) -/
-def h_sched_Signal : Nat := 0xdc61a92f5c9233b4
+def h_sched_Signal : Nat := 0x32fb27f5ad1d1778
 
 /-- hash of the normalised skeleton of Cancel (internal/dag/scheduler/scheduler.go) -/
 def h_sched_Cancel : Nat := 0xc7db22a64325b786
@@ -50,7 +50,7 @@ def h_sched_setCanceled : Nat := 0x6580e2541b8f862e
 def h_sched_setup : Nat := 0xe6bb087f88155663
 
 /-- hash of the normalised skeleton of signal (internal/dag/scheduler/node.go) -/
-def h_node_signal : Nat := 0xf3d66ee5de6cc64c
+def h_node_signal : Nat := 0x463ede1434525399
 
 /-- hash of the normalised skeleton of cancel (internal/dag/scheduler/node.go) -/
 def h_node_cancel : Nat := 0x74816414b79524b0
@@ -69,7 +69,7 @@ def dryGuards : List String := ["setupNode: if !sc.dry { return node.setup(sc.lo
 def errSwitch : List (List String) := [
   ["status == NodeStatusSuccess || status == NodeStatusCancel", ""],
   ["sc.isTimeout(g.startedAt)", "node.setStatus(NodeStatusCancel); sc.setLastError(execErr)"],
-  ["sc.isCanceled()", "sc.setLastError(execErr)"],
+  ["sc.isCanceled()", "node.setStatus(NodeStatusCancel); sc.setLastError(execErr)"],
   ["node.data.Step.RetryPolicy != nil && node.data.Step.RetryPolicy.Limit > node.getRetryCount()", "node.incRetryCount(); time.Sleep(node.data.Step.RetryPolicy.Interval); node.setRetriedAt(time.Now()); node.setStatus(NodeStatusNone)"],
   ["default", "node.setStatus(NodeStatusError); node.setErr(execErr); sc.setLastError(execErr)"]]
 
@@ -91,7 +91,7 @@ def isReadyTable : List (List String) := [
   ["Running", "", "wait", ""],
   ["default", "", "wait", ""]]
 
-def nodeSignalSkeleton : List String := ["n.mu.Lock()", "defer n.mu.Unlock()", "status := n.data.State.Status", "if status == NodeStatusRunning && n.cmd != nil", ".sigsig := sig", ".if allowOverride && n.data.Step.SignalOnStop != \"\"", "..sigsig = unix.SignalNum(n.data.Step.SignalOnStop)", ".util.LogErr(\"sending signal\", n.cmd.Kill(sigsig))", "if status == NodeStatusRunning", ".n.data.State.Status = NodeStatusCancel"]
+def nodeSignalSkeleton : List String := ["n.mu.Lock()", "defer n.mu.Unlock()", "status := n.data.State.Status", "if n.cmdRunning && n.cmd != nil", ".sigsig := sig", ".if allowOverride && n.data.Step.SignalOnStop != \"\"", "..sigsig = unix.SignalNum(n.data.Step.SignalOnStop)", ".util.LogErr(\"sending signal\", n.cmd.Kill(sigsig))", "if status == NodeStatusRunning", ".n.data.State.Status = NodeStatusCancel"]
 
 def pred_isFinished : List String := ["node.State().Status == NodeStatusRunning || node.State().Status == NodeStatusNone => return false"]
 
@@ -99,9 +99,9 @@ def pred_isSucceed : List String := ["nodeStatus == NodeStatusSuccess || nodeSta
 
 def pred_runningCount : List String := ["node.State().Status == NodeStatusRunning => count++"]
 
-def scheduleIfConds : List String := ["err != nil", "sc.timeout > 0", "sc.isCanceled()", "node.State().Status != NodeStatusNone || !isReady(g, node)", "sc.isCanceled()", "sc.maxActiveRuns > 0 && sc.runningCount(g) >= sc.maxActiveRuns", "len(node.data.Step.Preconditions) > 0", "err != nil", "err != nil", "execErr != nil", "node.State().Status != NodeStatusCancel", "node.data.Step.RepeatPolicy.Repeat", "execErr == nil || node.data.Step.ContinueOn.Failure", "!sc.isCanceled()", "execErr != nil && done != nil", "node.State().Status == NodeStatusRunning", "err != nil", "done != nil", "n != nil", "err != nil", "done != nil"]
+def scheduleIfConds : List String := ["err != nil", "sc.timeout > 0", "sc.isCanceled()", "node.State().Status != NodeStatusNone || !isReady(g, node)", "sc.isCanceled()", "sc.maxActiveRuns > 0 && sc.runningCount(g) >= sc.maxActiveRuns", "len(node.data.Step.Preconditions) > 0", "err != nil", "err != nil", "execErr != nil", "node.State().Status != NodeStatusCancel", "node.data.Step.RepeatPolicy.Repeat", "execErr == nil || node.data.Step.ContinueOn.Failure", "!sc.isCanceled()", "execErr != nil && done != nil", "node.State().Status == NodeStatusRunning", "executed", "err != nil", "done != nil", "n != nil", "err != nil", "done != nil"]
 
-def signalSkeleton : List String := ["if !sc.isCanceled()", ".sc.setCanceled()", "range _,node := g.Nodes()", ".if !node.data.Step.RepeatPolicy.Repeat", "..node.signal(sig, allowOverride)", "if done != nil", ".func#0()()", "..func#0 body", "...done <- true", ".defer ^", ".for ;g.IsRunning();", "..time.Sleep(sc.pause)"]
+def signalSkeleton : List String := ["if !sc.isCanceled()", ".sc.setCanceled()", "range _,node := g.Nodes()", ".if !node.data.Step.RepeatPolicy.Repeat || sig == syscall.SIGKILL", "..node.signal(sig, allowOverride)", "if done != nil", ".func#0()()", "..func#0 body", "...done <- true", ".defer ^", ".for ;g.IsRunning() || sc.isExecuting(g);", "..time.Sleep(sc.pause)"]
 
 def statusCascade : List (List String) := [
   ["sc.isCanceled() && !sc.isSucceed(g)", "StatusCancel"],
